@@ -5,7 +5,7 @@
    outside this list, binary operators and label matchers are covered by the differential harness only. *)
 From Coq Require Import String.
 From Coq Require Import QArith ZArith List Bool Sorted Permutation.
-From OG Require Import C18.Model C18.Model2 C18.Model3 C18.ProofsA C18.ProofsB C18.ProofsC C18.ProofsD C18.ProofsE C18.ProofsF C18.ProofsG.
+From OG Require Import C18.Model C18.Model2 C18.Model3 C18.ProofsA C18.ProofsB C18.ProofsC C18.ProofsD C18.ProofsE C18.ProofsF C18.ProofsG C18.ProofsH.
 Import ListNotations.
 Open Scope Q_scope.
 
@@ -235,6 +235,17 @@ Theorem C18_vector_binop_no_duplicate_series : forall op rb m lhs rhs out,
 Proof. exact vv_binop_no_duplicate_series. Qed.
 Print Assumptions C18_one_to_one_partial_bijection.
 Print Assumptions C18_vector_binop_no_duplicate_series.
+
+(* range queries: the repaired step-by-step walk of the operator (cursor bounded by the tag group of the matched
+   series) returns exactly the steps at which both matched series have a value - the instant evaluations at the steps *)
+Theorem C18_binop_walk_repaired_is_stepwise_join : forall f s chunk g,
+  times_increasing s -> times_increasing (nth g chunk []) ->
+  walk_repaired f s chunk g = join_spec f s (nth g chunk []).
+Proof. exact walk_repaired_is_stepwise_join. Qed.
+Theorem C18_binop_stepwise_join_points : forall f s p t v,
+  In (t, v) (join_spec f s p) <-> exists vs vp, In (t, vs) s /\ value_at t p = Some vp /\ v = f vs vp.
+Proof. exact join_spec_points. Qed.
+Print Assumptions C18_binop_walk_repaired_is_stepwise_join.
 
 Example C18_example_binops :
   let a := [([("__name__", "m"); ("instance", "a"); ("job", "x")]%string, 6); ([("__name__", "m"); ("instance", "b"); ("job", "x")]%string, 2)] in
